@@ -19,10 +19,18 @@ import (
 // ErrInjected is the root of every injected fault.
 var ErrInjected = errors.New("injected fault")
 
-type injected struct{ where string }
+type injected struct {
+	where    string
+	notFound bool // the fault is "the source no longer has this content": the error also matches errdef.ErrNotFound
+}
 
 func (e *injected) Error() string { return "injected fault at " + e.where }
-func (e *injected) Unwrap() error { return ErrInjected }
+func (e *injected) Unwrap() []error {
+	if e.notFound {
+		return []error{ErrInjected, errdef.ErrNotFound}
+	}
+	return []error{ErrInjected}
+}
 
 // Full is the union of the read/write/tag/graph interfaces a store may offer.
 type Full interface {
@@ -112,7 +120,7 @@ func (w *World) fault(op, node string, n int) int {
 			}
 		})
 		if a == ACancel && w.Cancel != nil {
-			w.Cancel(&injected{"cancel at " + label})
+			w.Cancel(&injected{where: "cancel at " + label})
 		}
 	}
 	return a
@@ -187,7 +195,7 @@ func (s *Src) Fetch(ctx context.Context, d ocispec.Descriptor) (io.ReadCloser, e
 	id, nm := s.W.name(d)
 	a := s.W.fault("src.Fetch", nm, 3)
 	if a == AErrBefore {
-		return nil, &injected{"src.Fetch(" + nm + ")"}
+		return nil, &injected{where: "src.Fetch(" + nm + ")", notFound: true}
 	}
 	s.W.begin(true)
 	rc, err := s.Inner.Fetch(ctx, d)
@@ -203,7 +211,7 @@ func (s *Src) Exists(ctx context.Context, d ocispec.Descriptor) (bool, error) {
 	_, nm := s.W.name(d)
 	a := s.W.fault("src.Exists", nm, 3)
 	if a == AErrBefore {
-		return false, &injected{"src.Exists(" + nm + ")"}
+		return false, &injected{where: "src.Exists(" + nm + ")"}
 	}
 	s.W.begin(true)
 	defer s.W.end(true, "src.Exists("+nm+")")
@@ -225,7 +233,7 @@ func (s *SrcTarget) Predecessors(ctx context.Context, d ocispec.Descriptor) ([]o
 	_, nm := s.W.name(d)
 	a := s.W.fault("src.Predecessors", nm, 3)
 	if a == AErrBefore {
-		return nil, &injected{"src.Predecessors(" + nm + ")"}
+		return nil, &injected{where: "src.Predecessors(" + nm + ")"}
 	}
 	return s.P.Predecessors(ctx, d)
 }
@@ -247,7 +255,7 @@ func (t *Dst) Exists(ctx context.Context, d ocispec.Descriptor) (bool, error) {
 	_, nm := t.W.name(d)
 	a := t.W.fault("dst.Exists", nm, 3)
 	if a == AErrBefore {
-		return false, &injected{"dst.Exists(" + nm + ")"}
+		return false, &injected{where: "dst.Exists(" + nm + ")"}
 	}
 	t.W.begin(false)
 	defer t.W.end(false, "dst.Exists("+nm+")")
@@ -258,7 +266,7 @@ func (t *Dst) Push(ctx context.Context, d ocispec.Descriptor, r io.Reader) error
 	id, nm := t.W.name(d)
 	a := t.W.fault("dst.Push", nm, 4)
 	if a == AErrBefore {
-		return &injected{"dst.Push(" + nm + ")"}
+		return &injected{where: "dst.Push(" + nm + ")"}
 	}
 	t.W.begin(false)
 	t.W.Do(func() { t.W.PushCount[id]++ })
@@ -277,7 +285,7 @@ func (t *Dst) Push(ctx context.Context, d ocispec.Descriptor, r io.Reader) error
 		t.W.CheckClosed(ctx, t.Inner, id)
 	}
 	if a == AErrAfter && err == nil {
-		return &injected{"dst.Push(" + nm + ") after effect"}
+		return &injected{where: "dst.Push(" + nm + ") after effect"}
 	}
 	return err
 }
